@@ -672,9 +672,197 @@ def nontrivial_hist(c, o):
   return True in norms and False in norms[norms.index(True):]
 
 
+# ---------------------------------------------------------------------------- stft histories
+def use_layers(c, use, call):
+  """The keyword layers one call depends on: those of its own chain only."""
+  if use["mode"] == "direct":
+    return [use["flayer"], call["kw"]]
+  return c["base"] + use["chain"] + [use["flayer"] if use["mode"] == "partial" else [], call["kw"]]
+
+
+def drain_blocks(res):
+  got, err = [], None
+  try:
+    for b in res:
+      got.append([fr(to_frac(x)) for x in b])      # snapshot at yield time
+      if len(got) > 500:
+        err = "TooManyItems"; break
+  except Exception as e:
+    err = type(e).__name__
+  return got, err
+
+
+def run_shist(c):
+  import audiolazy
+  R = StftRun()
+  st = audiolazy.stft
+  salt = [0]
+  def mk(lay):
+    salt[0] += 1
+    return dict((k, R.obj(k, v, salt[0])) for k, v in lay)
+  obs, pending = [], []
+  try:
+    P = None
+    if c["base"]:
+      P = st(**mk(c["base"][0]))
+      for lay in c["base"][1:]:
+        P = P(**mk(lay))
+    for use in c["uses"]:
+      func = f1_py(use["func"])
+      if use["mode"] == "direct":
+        proc = st(func, **mk(use["flayer"]))
+      else:
+        cur = P
+        for lay in use["chain"]:
+          cur = cur(**mk(lay))
+        proc = cur(func) if use["mode"] == "decorator" else cur(func, **mk(use["flayer"]))
+      for call in use["calls"]:
+        sig = [ExactQ(unfr(p)) for p in call["sig"]]
+        if call.get("sigkind") == "gen":
+          sig = (x for x in sig)
+        R.user_log, R.list_called = [], False
+        try:
+          res = proc(sig, **mk(call["kw"]))
+        except Exception as e:
+          obs.append({"kind": "call", "exn": type(e).__name__}); continue
+        if R.user_log:
+          u = R.user_log[0]
+          obs.append({"kind": "user", "id": u["id"], "params": u["params"], "blocks": u["blocks"], "exn": u["exn"]})
+        else:
+          obs.append(None)
+          pending.append((len(obs) - 1, "samples" if R.list_called else "blocks", res))
+          if not c.get("lazy"):
+            flush(pending, obs)
+    flush(pending, obs)
+  except Exception as e:
+    return {"raise": type(e).__name__, "harness_msg": str(e)[:200]}
+  return {"calls": obs}
+
+
+def flush(pending, obs):
+  """Consumes the results that are still live (all at the end in the lazy variant: alternately, item by item)."""
+  its = []
+  for i, kind, res in pending:
+    obs[i] = {"kind": kind, "out": [], "blocks": [], "exn": None}
+    its.append((i, kind, iter(res)))
+  del pending[:]
+  while its:
+    for ent in list(its):
+      i, kind, it = ent
+      try:
+        v = next(it)
+        if kind == "samples": obs[i]["out"].append(fr(to_frac(v)))
+        else: obs[i]["blocks"].append([fr(to_frac(x)) for x in v])
+        if len(obs[i]["out"]) + len(obs[i]["blocks"]) > 2000:
+          obs[i]["exn"] = "TooManyItems"; its.remove(ent)
+      except StopIteration:
+        its.remove(ent)
+      except Exception as e:
+        obs[i]["exn"] = type(e).__name__; its.remove(ent)
+
+
+def lit_shist(c, o):
+  lits, k = [], 0
+  calls = o.get("calls")
+  for use in c["uses"]:
+    for call in use["calls"]:
+      layers = use_layers(c, use, call)
+      ob = calls[k] if calls and k < len(calls) and calls[k] else {"kind": "?", "exn": o.get("raise", "missing")}
+      lits.append(lit_stft({"gc": stft_gc(layers), "layers": layers, "func": use["func"], "sig": call["sig"]}, ob))
+      k += 1
+  return L.lst(lits)
+
+
+def ingredient_values(key, size, rng, n):
+  """Alternatives for ONE keyword (None = explicit None, "absent" = not given)."""
+  wa = ["wnd", mk_window("call", size, n, 1)]; wb = ["wnd", mk_window("call", size, n + 5, 2)]
+  wl = ["wnd", mk_window("list", size, n, 3)]; wm = ["wnd", ["memo", wvals(size, n, 4)]]
+  if key in ("wnd", "ola_wnd"): return [wa, wb, wl, wm, ["none"], "absent"]
+  if key == "hop": return [["nat", h] for h in range(1, size + 1)] + ["absent"]
+  if key in ("transform", "inverse_transform"): return [["fun", "mulsize"], ["fun", "addsize"], ["fun", "rev"], ["none"]]
+  if key in ("before", "after"): return [["fun", "ramp"], ["fun", "sq"], ["fun", "rev"], ["none"]]
+  if key == "ola_normalize": return [["bool", True], ["bool", False], "absent"]
+  if key == "ola": return [["ola", ["user", 1]], ["ola", ["user", 2]], ["ola", "list"], ["none"]]
+  if key == "ola_zz": return [["opaque", 1], ["opaque", 2], ["none"], "absent"]
+  raise ValueError(key)
+
+
+VARY = ["wnd", "wnd", "ola_wnd", "hop", "hop", "transform", "before", "ola_normalize", "ola", "ola_zz", "after", "inverse_transform"]
+
+
+def kw_of(key, v):
+  return [] if v == "absent" else [[key, v]]
+
+
+def gen_shist(tier, rng):
+  nrep = 140 if tier == "quick" else 1500
+  for n in range(nrep):
+    size = rng.randrange(1, 6)
+    key = VARY[n % len(VARY)]
+    vals = ingredient_values(key, size, rng, n)
+    ola = rng.choice([["none"], ["ola", "list"], ["ola", "list"], ["ola", ["user", 3]]])
+    if key in ("ola_wnd", "ola_normalize", "ola_zz") and ola == ["none"]:
+      ola = ["ola", "list"] if key != "ola_zz" else ["ola", ["user", 3]]
+    if key == "ola_zz":
+      ola = ["ola", ["user", 3]]
+    common = [["size", ["nat", size]]] + [list(x) for x in NONE4] + ([["ola", ola]] if key != "ola" else [])
+    if key != "hop" and rng.random() < 0.6:
+      common.append(["hop", ["nat", rng.randrange(1, size + 1)]])
+    if key not in ("wnd",) and rng.random() < 0.3:
+      common.append(["wnd", ["wnd", mk_window("list", size, n, 7)]])
+    sig = lambda: mk_sig(rng.choice([0, size, 2 * size + 1, 7]), rng)
+    func = lambda: rng.choice(["id", "id", "rev", "ramp"])
+    picks = [rng.choice(vals) for _ in range(3)]
+    if picks[0] == picks[1]:
+      picks[1] = vals[(vals.index(picks[0]) + 1) % len(vals)]
+    lazy = rng.random() < 0.3
+    if n % 2 == 0:
+      # (H1) one processor, several calls that differ in one call-time keyword (incl. explicit None over a build value)
+      build = list(common)
+      if rng.random() < 0.5 and picks[2] != "absent":
+        build.append([key, picks[2]])                       # a build-time value the calls override (or not)
+      if key == "ola" and not any(k == "ola" for k, _ in build):
+        build.append(["ola", ["ola", "list"]])
+      mode = ["direct", "partial", "decorator"][(n // 2) % 3]
+      calls = [{"kw": kw_of(key, v), "sig": sig(), "sigkind": rng.choice(["list", "gen"])} for v in picks[:rng.choice([2, 3])]]
+      if rng.random() < 0.4:
+        calls.append(dict(calls[0], sig=sig()))             # back to the first setting
+      if mode == "direct":
+        yield {"base": [], "uses": [{"mode": "direct", "chain": [], "flayer": build, "func": func(), "calls": calls}],
+               "lazy": lazy, "tags": ["one-processor", "vary=" + key, "mode=direct"]}
+      else:
+        cut = rng.randrange(0, len(build) + 1)
+        use = {"mode": mode, "chain": [build[cut:]] if mode == "decorator" else [],
+               "flayer": build[cut:] if mode == "partial" else [], "func": func(), "calls": calls}
+        yield {"base": [build[:cut]], "uses": [use], "lazy": lazy, "tags": ["one-processor", "vary=" + key, "mode=" + mode]}
+    else:
+      # (H2) one partial object used as a factory: an earlier use gives the keyword, a later one omits / changes it
+      base = list(common)
+      if key == "ola":
+        base.append(["ola", ["ola", "list"]])
+      uses = []
+      for i, v in enumerate(picks[:rng.choice([2, 3])] + ["absent"]):
+        mode = rng.choice(["partial", "decorator"])
+        where = rng.choice(["chain", "flayer"]) if mode == "partial" else "chain"
+        extra = kw_of(key, v)
+        use = {"mode": mode, "chain": [extra] if where == "chain" and (extra or rng.random() < 0.5) else [],
+               "flayer": extra if where == "flayer" else [], "func": func(),
+               "calls": [{"kw": [], "sig": sig(), "sigkind": "list"} for _ in range(rng.choice([1, 1, 2]))]}
+        uses.append(use)
+      cut = rng.randrange(1, len(base) + 1)
+      yield {"base": [base[:cut], base[cut:]] if rng.random() < 0.5 else [base], "uses": uses, "lazy": lazy,
+             "tags": ["factory", "vary=" + key, "uses=%d" % len(uses)]}
+
+
+def nontrivial_shist(c, o):
+  calls = [x for x in (o.get("calls") or []) if x]
+  return len(calls) >= 2 and sum(1 for x in calls if x.get("exn") is None and (x.get("blocks") or x.get("out"))) >= 2
+
+
 IMPORTS = "From AL Require Import C09.Model C09.Spec C09.Check."
 FAMILIES = {
   "ola": Family("ola", IMPORTS, "ocase", "corr_ola", "holds_ola", gen_ola, run_ola, lit_ola, nontrivial_ola),
   "hist": Family("hist", IMPORTS, "hcase", "corr_hist", "holds_hist", gen_hist, run_hist, lit_hist, nontrivial_hist),
+  "shist": Family("shist", IMPORTS, "shcase", "corr_shist", "holds_shist", gen_shist, run_shist, lit_shist, nontrivial_shist),
   "stft": Family("stft", IMPORTS, "scase", "corr_stft", "holds_stft", gen_stft, run_stft, lit_stft, nontrivial_stft),
 }
